@@ -391,6 +391,31 @@ def build(tier="quick", seed=0):
         pack.add(Obligation(name, lambda tier, name=name, k=k: prove_paths(name, th_complete_then_damage(k), lambda p, k=k: (p.value[0] == k and p.value[1] != "stop", f"yielded {p.value[0]} of the {k} complete record(s), ended {p.value[1]}"), lambda m_, p: {}, allow_raise=("UnicodeEncodeError", "error")),
                             replay=lambda w, k=k: {"call": "c04_complete_then_damage", "args": {"k": k}}, functions=FU, mode="whole loop"))
 
+    def th_embedded_stream(cut_back):
+        # a record whose bytes field holds a WHOLE record stream (a collected *.records file); the outer stream is cut inside that frame: the records of the
+        # embedded stream were never written to this stream and must not come out of it
+        def th():
+            B = it.call(RD, ["c04/blobrec", [("bytes", "data"), ("varint", "n")]], {})
+            I = it.call(RD, ["c04/inner", [("varint", "k")]], {})
+            inner_fp = AbsFile(it, mode="wb")
+            wi = it.call(st.g["RecordStreamWriter"], [inner_fp], {})
+            it.call(it.getattr_(wi, "write"), [it.call(I, [], {"k": 99})], {})
+            inner = b"".join(s_ if isinstance(s_, (bytes, bytearray)) else s_.concrete for s_ in inner_fp.content())
+            outer_fp = AbsFile(it, mode="wb")
+            wo = it.call(st.g["RecordStreamWriter"], [outer_fp], {})
+            it.call(it.getattr_(wo, "write"), [it.call(B, [], {"data": b"x", "n": 1})], {})
+            it.call(it.getattr_(wo, "write"), [it.call(B, [], {"data": inner, "n": 2})], {})
+            data = b"".join(s_ if isinstance(s_, (bytes, bytearray)) else s_.concrete for s_ in outer_fp.content())
+            rd = it.call(st.g["RecordStreamReader"], [AbsFile(it, [data[: len(data) - cut_back]])], {})
+            out, end = drain(it, it.iterate(rd))
+            return [(it.type_name(o), it.unbase(o.attrs.get("n", o.attrs.get("k"))) if isinstance(o, PObj) else None) for o in out], end if isinstance(end, str) else end[:2]
+        return th
+
+    for cut_back in (1, 10):
+        name = f"C04.iter[a bytes field holds a whole record stream, the outer stream ends {cut_back} byte(s) inside that frame]"
+        pack.add(Obligation(name, lambda tier, name=name, cut_back=cut_back: prove_paths(name, th_embedded_stream(cut_back), lambda p: (p.value[0] == [("c04_blobrec", 1)], f"read back {p.value[0]!r} (ended {p.value[1]}): exactly the one completely written record may be yielded")),
+                            replay=lambda w, cut_back=cut_back: {"call": "c04_embedded_stream", "args": {"cut_back": cut_back}}, functions=FU, mode="whole loop, concrete frames"))
+
     def th_symtail():
         D, Do = two_descs()
         t = z3.Int("t")
